@@ -112,6 +112,14 @@ class RecomputingDict(MutableMapping[RuleKey, AbstractStrategy]):
                     if (start_label, end_labels) == key:
                         if self.only_equiv and not rule.is_two_way():
                             continue
+                        if (
+                            not self.only_equiv
+                            and len(end_labels) == 1
+                            and rule.is_two_way()
+                        ):
+                            # two-way rules with a single child are only ever
+                            # kept in the equivalence dictionary
+                            continue
                         return rule.strategy
                 except StrategyDoesNotApply:
                     pass
